@@ -3083,3 +3083,26 @@ V(id='c08-from-str-rounds-the-literal-mantissa', prop='C08', file='mpmath/libmp/
   new="        s = from_int(man, prec, rnd)\n        s = mpf_mul(s, mpf_pow_int(ften, exp, prec+10, prnd), prec, rnd)\n", expect='fire:W-R6:from_str')
 V(id='c39-frexp-through-rounding-constructor', prop='C39', file='mpmath/ctx_mp.py',
   old="        x = ctx.convert(x)\n        y, n = libmp.mpf_frexp(x._mpf_)\n", new="        x = ctx.mpf(x)\n        y, n = libmp.mpf_frexp(x._mpf_)\n", expect='fire:N-R3:frexp')
+
+# ---- C38 X-R15 / C17 K-R9 (fourth C38 hunt, third C17 hunt; fix 0a95f78) ----
+for _p, _r in (('C38', 'X-R15'), ('C17', 'K-R9')):
+    V(id='%s-operator-template-reads-foreign-constant' % _p.lower(), prop=_p, file='mpmath/ctx_mp_python.py',
+      old="        if isinstance(other, _constant) and other.context is not mpf.context:\n            tval = mpf.mpf_convert_rhs(other)\n", new="",
+      expect='fire:%s' % _r)
+    V(id='%s-cmp-reads-foreign-constant' % _p.lower(), prop=_p, file='mpmath/ctx_mp_python.py',
+      old="        if hasattr(t, '_mpf_') and not isinstance(t, _constant):\n", new="        if hasattr(t, '_mpf_'):\n",
+      expect='fire:%s:_cmp' % _r)
+    V(id='%s-fsum-reads-foreign-constant' % _p.lower(), prop=_p, file='mpmath/ctx_mp_python.py',
+      old="                if isinstance(term, _constant) and term.context is not ctx:\n                    reval = ctx.mpf.mpf_convert_rhs(term)\n", new="",
+      expect='fire:%s:fsum' % _r)
+V(id='c38-convert-rhs-reads-foreign-constant', prop='C38', file='mpmath/ctx_mp_python.py',
+  old="        if isinstance(x, _constant) and x.context is not cls.context \\\n            and not x.contextual:\n            # (a lazy constant of another context is evaluated in this one,\n            # as by the constructor and by convert)\n            return x.func(*cls.context._prec_rounding)\n",
+  new="", expect='fire:X-R15:mpf_convert_rhs')
+
+# ---- C14 C-R23 (fifth hunt; fix b34f672) ----
+V(id='c14-mpf-outward-nan-passed-on', prop='C14', file='mpmath/libmp/libmpi.py',
+  old="    if v == fnan:\n        if rounding == round_floor:\n            return fninf\n        return finf\n    if not man:\n        return v\n",
+  new="    if not man:\n        return v\n", expect='fire:C-R23:mpf_outward')
+V(id='c14-mpf-outward-nan-bounds-swapped', prop='C14', file='mpmath/libmp/libmpi.py',
+  old="    if v == fnan:\n        if rounding == round_floor:\n            return fninf\n        return finf\n",
+  new="    if v == fnan:\n        if rounding == round_floor:\n            return finf\n        return fninf\n", expect='fire:C-R23:mpf_outward')
